@@ -62,10 +62,21 @@ def field_value(rng, p):
 def field_pair(rng, p):
     """(a, b, pairclass): related operand pairs"""
     a, ca = field_value(rng, p)
-    k = rng.randrange(10)
+    k = rng.randrange(13)
     if k == 9:
         x, y = mont_digit_pair(rng, p)
         return x, y, 'mont-digits'
+    if k == 10:
+        got = unreduced_pair(rng, p)
+        if got:
+            return got[0], got[1], 'unreduced-target'
+    if k == 11:
+        # product equal to a boundary value: (a, c/a)
+        c = fixed_values(p)[rng.randrange(len(fixed_values(p)))] % p
+        if a:
+            return a, c * pow(a, -1, p) % p, 'inverse-pair'
+    if k == 12:
+        k = rng.randrange(9)
     if k == 0:
         return a, a, 'same'
     if k == 1:
@@ -149,6 +160,154 @@ def mont_digit_square(rng, p):
     return rng.randrange(p)
 
 
+# --------------------------------------------------------------------------- operands aimed at the UNREDUCED Montgomery result
+def sqrt_mod(a, p):
+    """Tonelli-Shanks modulo an odd prime p; None for a non-residue"""
+    a %= p
+    if a == 0:
+        return 0
+    if pow(a, (p - 1) // 2, p) != 1:
+        return None
+    s, m = 0, p - 1
+    while m % 2 == 0:
+        s += 1
+        m //= 2
+    z = 2
+    while pow(z, (p - 1) // 2, p) != p - 1:
+        z += 1
+    c = pow(z, m, p)
+    t = pow(a, m, p)
+    x = pow(a, (m + 1) // 2, p)
+    while t != 1:
+        i, t2 = 0, t
+        while t2 != 1:
+            t2 = t2 * t2 % p
+            i += 1
+        b = pow(c, 1 << (s - i - 1), p)
+        s, c, t, x = i, b * b % p, t * b * b % p, x * b % p
+    return x
+
+
+def unreduced_target(rng, p):
+    """a value u in [0, 2p) for the accumulator (A*B + K*p)/2^256 BEFORE the final conditional subtraction: the boundaries of that
+    subtraction (p, 2^256) and their neighbours, 2^256 + small, values with zero / all-ones limbs"""
+    k = rng.randrange(10)
+    if k == 0:
+        return rng.choice([p - 1, p, p + 1, R - 1, R, R + 1, 2 * p - 1, 2 * p - 2, 0, 1])
+    if k in (1, 2, 3):
+        return R + rng.getrandbits(rng.choice([1, 8, 60, 64, 65, 120, 128, 190, 192, 200, 250]))      # carry out, high limbs zero
+    if k == 4:
+        return p + rng.getrandbits(rng.choice([1, 8, 64, 128, 192]))
+    if k == 5:
+        return R - 1 - rng.getrandbits(rng.choice([1, 8, 64, 128, 192]))
+    if k in (6, 7):
+        v = limb_value(rng, p)
+        return v if v < 2 * p else v >> 1
+    return rng.randrange(2 * p)
+
+
+def unreduced_pair(rng, p):
+    """(a, b, u): field values whose Montgomery product has the unreduced accumulator (A*B + K*p)/2^256 equal to u exactly (or None)"""
+    for _ in range(40):
+        u = unreduced_target(rng, p)
+        A = rng.randrange(p // 2, p) | 1
+        if A >= p:
+            continue
+        # need A*B = u*R - K*p with 0 <= K < R and 0 <= B < p:  K = u*R/p mod A, then the K in that residue class that puts B in range
+        K0 = (u * R * pow(p, -1, A)) % A
+        # B < p  <=>  K > (u*R - p*A)/p ; smallest admissible K congruent to K0
+        lo = (u * R - p * A) // p + 1
+        if lo < 0:
+            lo = 0
+        K = lo + ((K0 - lo) % A)
+        num = u * R - K * p
+        if K >= R or num < 0 or num % A:
+            continue
+        B = num // A
+        if 0 <= B < p and (A * B + K * p) == u * R:
+            return rm.unmont(A, p), rm.unmont(B, p), u
+    return None
+
+
+def unreduced_square(rng, p):
+    """(a, u): a field value whose Montgomery SQUARE has the unreduced accumulator equal to u exactly (or None)"""
+    for _ in range(60):
+        u = unreduced_target(rng, p)
+        A = sqrt_mod(u * R % p, p)
+        if A is None:
+            continue
+        for cand in (A, p - A):
+            if 0 < cand < p:
+                num = u * R - cand * cand
+                if num >= 0 and num % p == 0 and num // p < R:
+                    return rm.unmont(cand, p), u
+    return None
+
+
+def sop2_boundary(rng):
+    """(a0, a1, b0, b1, u): Fq values such that the interleaved accumulator of a0*b0 + a1*b1 equals u exactly, u chosen at the
+    boundaries of the carry folding: 2^256 + q (two subtractions needed, result exactly 0/1), 2^256, 2q, ... (or None)"""
+    p = q
+    for _ in range(60):
+        k = rng.randrange(8)
+        if k < 3:
+            u = R + p + rng.choice([-2, -1, 0, 0, 1, 2, rng.getrandbits(64), rng.getrandbits(200)])
+        elif k == 3:
+            u = R + rng.choice([-1, 0, 1, rng.getrandbits(128)])
+        elif k == 4:
+            u = 2 * p + rng.choice([-1, 0, 1])
+        elif k == 5:
+            u = p + rng.choice([-1, 0, 1])
+        else:
+            u = R + rng.randrange(int(p * 1.42))      # anywhere above 2^256
+        if u < 0:
+            continue
+        smax = 2 * (p - 1) * (p - 1)
+        klo = max(0, -((smax - u * R) // p))          # S = u*R - K*p <= smax
+        khi = min(R - 1, (u * R) // p)
+        if klo > khi:
+            continue
+        K = rng.randrange(klo, khi + 1)
+        S = u * R - K * p
+        for _try in range(120):
+            A0 = rng.randrange(p - (p >> rng.choice([1, 4, 7, 20])), p)
+            A1 = rng.randrange(p - (p >> rng.choice([1, 4, 7, 20])), p)
+            try:
+                B0 = (S * pow(A0, -1, A1)) % A1       # A0*B0 = S mod A1
+            except ValueError:
+                continue
+            rest = S - A0 * B0
+            if rest < 0 or rest % A1:
+                continue
+            B1 = rest // A1
+            if 0 <= B1 < p and B0 < p:
+                assert A0 * B0 + A1 * B1 == S
+                return rm.unmont(A0, p), rm.unmont(A1, p), rm.unmont(B0, p), rm.unmont(B1, p), u
+    return None
+
+
+# --------------------------------------------------------------------------- scalars that make an intermediate ladder value special
+LAMBDA_R = next(l for l in (pow(g, (r - 1) // 3, r) for g in range(2, 60)) if l != 1)
+assert pow(LAMBDA_R, 3, r) == 1
+PATTERN_BYTES = [0xAA, 0x55, 0x33, 0xCC, 0x0F, 0xF0, 0x66, 0x99, 0x77, 0xEE, 0x11, 0x88, 0xDB, 0x6D, 0xB6, 0x24, 0x92, 0x49]
+
+
+def ladder_scalar(rng):
+    """a scalar k < r whose binary expansion has a prefix t with [t]P in {+-P, +-phi(P), +-phi^2(P)} (phi = the cube-root-of-unity
+    endomorphism) immediately before an addition step: the left-to-right ladder then adds P to -P, to P, or to a point sharing x or y"""
+    l = LAMBDA_R
+    targets = [c % r for c in (1, -1, l, -l, l * l, -l * l)]
+    for _ in range(50):
+        t = rng.choice(targets) + rng.choice([0, r])          # 2*prefix = t (mod r) as integers
+        if t % 2:
+            continue
+        j = rng.randrange(0, 40)
+        k = ((t + 1) << j) | rng.getrandbits(j) if j else t + 1
+        if 0 < k < r:
+            return k
+    return rng.randrange(r)
+
+
 def fq2_value(rng):
     k = rng.randrange(8)
     a, _ = field_value(rng, q)
@@ -168,7 +327,7 @@ def fq2_value(rng):
 
 def scalar(rng):
     """(k, class) with k in [0, r)"""
-    c = rng.randrange(12)
+    c = rng.randrange(15)
     if c == 0:
         fx = [0, 1, 2, 3, r - 1, r - 2, (r - 1) // 2, (r + 1) // 2, 4, 7, 8, 255, 256]
         return fx[rng.randrange(len(fx))], 'fixed'
@@ -197,6 +356,31 @@ def scalar(rng):
         return limb_value(rng, r), 'limbs'
     if c == 6:
         return rng.randrange(1 << rng.randrange(1, 64)), 'small'
+    if c == 7:
+        # Montgomery-targeted: the stored representative (not the value) has boundary limbs, e.g. representative 1, 2^64, r-1
+        return field_value(rng, r)[0], 'mont'
+    if c == 8:
+        # repeating bit patterns (maximal signed-digit weight, alternating runs) and their neighbours
+        b = PATTERN_BYTES[rng.randrange(len(PATTERN_BYTES))]
+        n = rng.choice([32, 32, 32, 31, 16, 8, rng.randrange(1, 33)])
+        v = int.from_bytes(bytes([b]) * n, 'big')
+        if rng.random() < 0.3:
+            v = (v >> rng.randrange(8)) | (rng.getrandbits(4) << 252)
+        v += rng.choice([0, 0, 1, -1, 2])
+        while v >= r:
+            v >>= 1
+        return max(v, 0), 'pattern'
+    if c == 9:
+        return ladder_scalar(rng), 'ladder'
+    if c == 10:
+        # maximal signed-digit (NAF) weight: a non-zero digit +-1 at every second position up to the top
+        for _ in range(40):
+            top = rng.choice([256, 256, 255, 254, rng.randrange(8, 257)])
+            v = 1 << top
+            for i in range(top - 2, -1, -2):
+                v += (1 << i) if rng.random() < 0.5 else -(1 << i)
+            if 0 < v < r:
+                return v, 'naf-dense'
     return rng.randrange(r), 'uniform'
 
 
